@@ -1,4 +1,5 @@
 import GPVerif.Model.Variational
+import GPVerif.Gen.VariationalAlgebra
 import GPVerif.Model.Proto
 open DMat Variational
 
@@ -42,19 +43,31 @@ def getD {k r c : Nat} (a : Array (DMat r c Rat)) (i : Fin k) : DMat r c Rat := 
 
 def reply (parts : List String) : String := "ok " ++ " ".intercalate parts
 
-/-- whitened strategy -/
+/-- whitened strategy.  When `εx = ε` (VariationalStrategy and its wrappers) the code path is evaluated through the
+definitions GENERATED from the source (`Gen.VariationalAlgebra`); CIQ (`εx = 2ε`, symmetric root) uses the hand-written
+`whitenedFwd`. -/
 def doW : P String := do
   let M ← popNat; let n ← popNat
   let Kzz ← popMat M M; let Kzx ← popMat M n; let Kxx ← popMat n n; let mX ← popMat n 1
   let ε ← popRat; let εx ← popRat
   let L ← popMat M M; let mw ← popMat M 1; let Sw ← popMat M M; let hasS ← popNat
   let Kt := addJitter Kzz ε
-  match whitenedFwd? L Kzx Kxx mX εx mw (if hasS = 1 then Sw else Sw), inv? Kt with
-  | some code, some Ki =>
+  match inv? L, inv? Kt with
+  | some Li, some Ki =>
+    let e : Gen.VariationalAlgebra.Env M n 1 Rat :=
+      { Kzz := Kzz, Kzx := Kzx, Kxx := Kxx, mX := mX, mZ := DMat.zero, m := mw, S := Sw, R := DMat.zero,
+        L := L, Li := Li, Ki := Ki, ε := ε, εd := 0 }
+    let gen := εx = ε
+    let code : QF n Rat :=
+      if gen then
+        (if hasS = 1 then { mean := Gen.VariationalAlgebra.wMean e, cov := Gen.VariationalAlgebra.wCov e }
+         else { mean := Gen.VariationalAlgebra.wMeanDelta e, cov := Gen.VariationalAlgebra.wCovDelta e })
+      else whitenedFwd Kzx Kxx mX εx Li mw Sw
+    let cholArg := if gen then Gen.VariationalAlgebra.wCholArg e else Kt
     let (d, S0) := unwhiten L mw Sw
     -- a point mass has no covariance: the strategy then uses middle term `−I`, i.e. `S = 0`
     let cf := closedForm Kzx (addJitter Kxx εx) mX Kt Ki d S0
-    let resid := maxAbs ((L.mul L.transpose).sub Kt)
+    let resid := maxAbs ((L.mul L.transpose).sub cholArg)
     let detSw := if hasS = 1 then det? Sw else none
     let detS := if hasS = 1 then det? S0 else none
     pure <| reply [sh code.mean, sh code.cov, sh cf.mean, sh cf.cov, shS resid,
@@ -62,23 +75,35 @@ def doW : P String := do
       shS (quadForm (one : DMat M M Rat) mw), shS (quadForm Ki d)]
   | _, _ => pure "fail singular"
 
-/-- unwhitened strategy -/
+/-- unwhitened strategy; code path through the GENERATED definitions (`uMean`, `uCov`, `uPriorCov`, `uCholArg`,
+`uSolveMat`).  `U M n r Kzz Kzx Kxx mX mZ ε εx εp m R S hasS L εd`. -/
 def doU : P String := do
   let M ← popNat; let n ← popNat; let r ← popNat
   let Kzz ← popMat M M; let Kzx ← popMat M n; let Kxx ← popMat n n; let mX ← popMat n 1; let mZ ← popMat M 1
   let ε ← popRat; let εx ← popRat; let εp ← popRat
   let m ← popMat M 1; let R ← popMat M r; let S ← popMat M M; let hasS ← popNat
+  let L ← popMat M M; let εd ← popRat
   let Kt := addJitter Kzz ε
   let Pr := addJitter Kzz εp
   let d := m.sub mZ
-  match unwhitenedFwd? Kt Kzx Kxx mX εx d R, inv? Kt, inv? Pr with
-  | some code, some Ki, some Pi =>
+  let e0 : Gen.VariationalAlgebra.Env M n r Rat :=
+    { Kzz := Kzz, Kzx := Kzx, Kxx := Kxx, mX := mX, mZ := mZ, m := m, S := S, R := R,
+      L := L, Li := DMat.zero, Ki := DMat.zero, ε := ε, εd := εd }
+  let Pc := Gen.VariationalAlgebra.uPriorCov e0
+  match inv? (Gen.VariationalAlgebra.uSolveMat e0), inv? Kt, inv? Pr, inv? Pc with
+  | some Kis, some Ki, some Pi, some Pci =>
+    let e := { e0 with Ki := Kis }
+    let code : QF n Rat := { mean := Gen.VariationalAlgebra.uMean e, cov := Gen.VariationalAlgebra.uCov e }
     let cf := closedForm Kzx (addJitter Kxx εx) mX Kt Ki d S
     let resid := maxAbs ((R.mul R.transpose).sub S)
+    let residL := maxAbs ((Gen.VariationalAlgebra.uSolveMat e).sub (Gen.VariationalAlgebra.uCholArg e))
     let tv := unwhitenedTrainVar Kzx Kxx Ki R
+    let dc := m.sub (Gen.VariationalAlgebra.uPriorMean e)
     pure <| reply [sh code.mean, sh code.cov, sh cf.mean, sh cf.cov, shS resid, shV tv,
-      shS (klRat Pi S d), shO (if hasS = 1 then det? S else none), shO (det? Pr), shS (quadForm Pi d)]
-  | _, _, _ => pure "fail singular"
+      shS (klRat Pi S d), shO (if hasS = 1 then det? S else none), shO (det? Pr), shS (quadForm Pi d),
+      shS (klRat Pci S dc), shO (det? Pc), shS (quadForm Pci dc), shS residL,
+      shS (Gen.VariationalAlgebra.uPriorJitter e - Gen.VariationalAlgebra.uForwardJitter e)]
+  | _, _, _, _ => pure "fail singular"
 
 /-- generic KL parts of `N(m,S)` (or a point mass at `m`) against `N(μ, P)` -/
 def doK : P String := do
